@@ -64,7 +64,8 @@ def main() -> int:
         tier = args[args.index("--tier") + 1]
     if "--keep-as" in args:
         keep = args[args.index("--keep-as") + 1]
-    out = Path(f"/tmp/seed/{pid}/OUT")
+    root = args[args.index("--root") + 1] if "--root" in args else "/tmp/seed"
+    out = Path(f"{root}/{pid}/OUT")
     patch, demo = out / f"{variant}.diff", out / f"demo_{variant}.py"
     meta_all = json.loads((out / "meta.json").read_text()) if (out / "meta.json").exists() else {}
     meta = meta_all.get(variant, {})
